@@ -39,6 +39,17 @@ def run(ctx, chk):
                     continue
                 start, nchars, leaf, trims = tc
                 n += 1
+                if w == "rest6":
+                    # the text is the decoding of its whole bit range: every complete 6-bit group
+                    # between the header and the end of the payload
+                    head = off
+                    ns = o.nset()
+                    for nb in ([ns.min()] if ns.is_single() else [ns.min(), min(ns.max(), 1000), 200]):
+                        if not ns.contains(nb):
+                            continue
+                        want = (8 * nb - head) // 6
+                        got = nchars if isinstance(nchars, int) else (want if nchars == ("fdiv", ("lin", ((("len", "P"), 8),), -head), 6) else None)
+                        chk.ob(got == want, "C13/range/%s/%s/%s/%s" % (struct, p, nb, got), "%s.%s [%s] at %d bytes decodes %s characters; its bit range holds %d" % (struct, p, cfg, nb, got if got is not None else nchars, want))
                 chk.ob(trims == WANT_TRIMS, "C13/trims/%s/%s/%s" % (struct, p, trims),
                        "%s.%s [%s]: padding is stripped as %r, expected leading spaces, then trailing '@', then trailing spaces" % (struct, p, cfg, trims),
                        sample={"field": struct + "." + p, "chars": str(nchars), "from_bit": start, "trims": [str(t) for t in trims]})
